@@ -1,6 +1,7 @@
 package scen
 
 import (
+	"bytes"
 	"context"
 	"encoding/binary"
 	"fmt"
@@ -45,7 +46,7 @@ type byzMut struct {
 var byzClasses = []string{"ROWS tok", "ROWS schema", "PREPARED schema", "SUPPORTED", "READY", "PREPARED", "ERROR(", "VOID", "ROWS(local)", "ROWS(peers)", "EVENT",
 	"AUTHENTICATE", "AUTH_SUCCESS", "SET_KEYSPACE", "ROWS(schema_version)", "ANY"}
 
-const byzMutKinds = 14
+const byzMutKinds = 16
 
 // panicSite extracts the first driver function below the panic from a stack dump.
 func panicSite(stack string) string {
@@ -619,8 +620,14 @@ func byzFinish(k *kernel.Kernel, cl *node.Cluster, sess *gocql.Session, ms0 *run
 	// states its own decoded size); and a frame header may announce up to the protocol's 256 MiB frame limit and the driver
 	// allocates the announced body before reading it: that is the frame limit at work, not
 	// a parser trusting a count, so runs whose mutation made the header lie are exempt
-	if grown := ms1.TotalAlloc - ms0.TotalAlloc; grown > 64<<20 && k.Violation() == nil && !headerLied(k) && !compressedRun {
-		k.Violate("C05", "C05/wild-allocation", "the run allocated %d MiB in total although the node sent only small uncompressed frames with truthful headers", grown>>20)
+	// (the simulated node builds and copies what it sends, inside the same process: a few
+	// times the bytes sent are allowed on top of the bound)
+	var sent int64
+	for _, c := range cl.Net.Conns() {
+		sent += c.SentBytes()
+	}
+	if grown := ms1.TotalAlloc - ms0.TotalAlloc; grown > uint64(64<<20+16*sent) && k.Violation() == nil && !headerLied(k) && !compressedRun {
+		k.Violate("C05", "C05/wild-allocation", "the run allocated %d MiB in total although the node sent only %d KiB, in uncompressed frames with truthful headers", grown>>20, sent>>10)
 	}
 }
 
@@ -792,6 +799,32 @@ func byzMutate(tp *kernel.Tape, sc *node.SConn, kind int, frame []byte) (out []b
 		o := hs + 4*tp.Next(n)
 		f[o+3] ^= 1 << uint(tp.Next(5))
 		return f, false, "flag-bit"
+	case 14, 15: // a rows result whose column type is a tree no server would send
+		var typ []byte
+		desc := "type-tree-wide"
+		if kind == 14 {
+			// a tuple of 65535 elements whose first element is a tuple of 65535 elements ...
+			for i := []int{1, 3, 40, 300, 2000}[tp.Next(5)]; i > 0; i-- {
+				typ = append(typ, 0x00, 0x31, 0xff, 0xff)
+			}
+			if tp.Chance(1, 3) {
+				// ... or a user-defined type that announces 65535 fields
+				typ = append(typ, 0x00, 0x30, 0x00, 0x01, 'k', 0x00, 0x01, 'u', 0xff, 0xff)
+			}
+		} else {
+			// list<list<list<...>>>
+			desc = "type-tree-deep"
+			typ = bytes.Repeat([]byte{0x00, 0x20}, []int{10, 2000, 200000, 4000000}[tp.Next(4)])
+		}
+		typ = append(typ, 0x00, 0x09)
+		b := append([]byte(nil), f[:hs]...)
+		b[1] &= cqlspec.FlagBeta
+		b[hs-5] = byte(cqlspec.OpResult)
+		b = append(b, 0, 0, 0, 2, 0, 0, 0, 1, 0, 0, 0, 1, 0, 2, 'k', 's', 0, 1, 't', 0, 1, 'c')
+		b = append(b, typ...)
+		b = append(b, 0, 0, 0, 0)
+		setLen(b, int32(len(b)-hs))
+		return b, false, desc
 	default: // garbage body behind a plausible header
 		for i := hs; i < len(f); i++ {
 			f[i] = byte(tp.Next(256))
